@@ -63,6 +63,29 @@ def gen_round(rng, n, deps, hard, profile):
     return rnd
 
 
+def group_consistent(rnd, n):
+    """are `deps` / `hard` of the round the flattened meaning of its block (see add_group)?"""
+    group = rnd['group']
+    members, gdeps, gdependees = group['members'], group['deps'], group['dependees']
+    if not members or max(members + gdeps + gdependees) >= n:
+        return False
+    inside = set(members)
+    inner = {s: [d for d in rnd['deps'][s] if d in inside] for s in members}
+    terminal = [s for s in members if not inner[s]]
+    initial = [s for s in members if not any(s in inner[o] for o in members)]
+    for s in members:
+        outer = sorted(d for d in rnd['deps'][s] if d not in inside)
+        if outer != (sorted(gdeps) if s in terminal else []) or sorted(rnd['hard'][s]) != sorted(rnd['deps'][s]):
+            return False
+    for t in range(n):
+        if t in inside:
+            continue
+        cross = sorted(d for d in rnd['deps'][t] if d in inside)
+        if cross != (sorted(initial) if t in gdependees else []) or any(d not in rnd['hard'][t] for d in cross):
+            return False
+    return True
+
+
 def add_group(rng, rnd):
     """a block of tasks handed to the scheduler as one node: a nested DepGraph (hard graph) with its own dependencies and
     dependees.  The scheduler flattens it: the dependees wait for the tasks of the block nobody in the block depends on,
@@ -166,6 +189,21 @@ def gen(rng, tier, profile):
 
 
 def shrink(case):
+    """smaller cases; a block whose dependencies were cut away is dropped (the case is then presented plainly)"""
+    for cand in shrink_raw(case):
+        for rnd in cand['rounds']:
+            if rnd.get('group') and not group_consistent(rnd, rnd['n']):
+                del rnd['group']
+        yield cand
+    for ri, rnd in enumerate(case['rounds']):
+        for key in ('group', 'insert'):
+            if key in rnd:
+                new = copy.deepcopy(case['rounds'])
+                del new[ri][key]
+                yield {'rounds': new}
+
+
+def shrink_raw(case):
     rounds = case['rounds']
     if len(rounds) > 1:
         yield {'rounds': rounds[:-1]}
@@ -317,8 +355,8 @@ def run_rounds(case, sched_override=None):
         insert = [t for t in (rnd.get('insert') or []) if t < n]
         insert += [t for t in range(n) if t not in insert]      # (a shrunk case may have fewer tasks)
         group = rnd.get('group')
-        if group and (max(group['members'] + group['deps'] + group['dependees']) >= n):
-            group = None                                            # (shrunk below the block: plain presentation)
+        if group and not group_consistent(rnd, n):
+            group = None          # (a shrunk case whose dependencies are no longer those of the block: plain presentation)
         inside = set(group['members']) if group else set()
         sub = DepGraph() if group else None
         placed = False
